@@ -10,26 +10,30 @@ cleanup() { git -C /repo worktree remove --force "$WT" >/dev/null 2>&1; }
 trap cleanup EXIT
 cd "$WT"
 git apply "$SRC/OUT/patch.diff" || { echo "RESULT $NAME: patch does not apply"; exit 1; }
-demos=$(ls "$SRC"/OUT/*_test.go 2>/dev/null)
+# the demonstrations: every untracked *_test.go of the agent's worktree (outside OUT/), at the same relative path
+demos=$(cd "$SRC" && git ls-files --others --exclude-standard | grep '_test\.go$' | grep -v '^OUT/')
+dirs=""
 for d in $demos; do
-  # place the demo next to the package named in its package clause
-  pk=$(grep -m1 '^package ' "$d" | awk '{print $2}')
-  rel=$(cd "$SRC" && git ls-files --others --exclude-standard | grep "$(basename $d)" | grep -v '^OUT/' | head -1)
-  dir=$(dirname "${rel:-./x}")
-  cp "$d" "$WT/$dir/"
-  echo "demo $(basename $d) -> $dir (package $pk)"
+  mkdir -p "$WT/$(dirname $d)"
+  cp "$SRC/$d" "$WT/$d"
+  dirs="$dirs ./$(dirname $d)"
+  echo "demo $d"
 done
+dirs=$(echo $dirs | tr ' ' '\n' | sort -u | tr '\n' ' ')
+RACE=""
+case "$NAME" in C10*) RACE="-race";; esac
 go build ./... || { echo "RESULT $NAME: does not build"; exit 1; }
 b=$(/tmp/seedkit/baseline.sh "$WT" | head -1); echo "baseline with change: $b"
-runs() { local ok=0; for i in 1 2 3; do ( cd "$WT/$dir" && go test -vet=off -count=1 -run '^TestSeed' . >/tmp/seedverify/$NAME.log 2>&1 ) && ok=$((ok+1)); done; echo $ok; }
+runs() { local ok=0; for i in 1 2 3; do ( cd "$WT" && go test $RACE -vet=off -count=1 -run '^TestSeed' $dirs >/tmp/seedverify/$NAME.log 2>&1 ) && ok=$((ok+1)); done; echo $ok; }
 mkdir -p /tmp/seedverify
 w=$(runs); echo "demo passes with change: $w/3"
 git apply -R "$SRC/OUT/patch.diff"
 wo=$(runs); echo "demo passes without change: $wo/3"
 case "$b" in *"missing: 0"*) okb=1;; *) okb=0;; esac
 if [ "$okb" = 1 ] && [ "$w" = 0 ] && [ "$wo" = 3 ]; then
-  mkdir -p /verif/seeded/$NAME && cp "$SRC/OUT/patch.diff" /verif/seeded/$NAME/ && cp $demos /verif/seeded/$NAME/ && cp "$SRC/OUT/NOTES.md" /verif/seeded/$NAME/ 2>/dev/null
-  echo "RESULT $NAME: CONFIRMED (dir=$dir)"
+  mkdir -p /verif/seeded/$NAME && cp "$SRC/OUT/patch.diff" /verif/seeded/$NAME/ && cp "$SRC/OUT/NOTES.md" /verif/seeded/$NAME/ 2>/dev/null
+  for d in $demos; do mkdir -p /verif/seeded/$NAME/$(dirname $d); cp "$SRC/$d" /verif/seeded/$NAME/$d; done
+  echo "RESULT $NAME: CONFIRMED (dirs=$dirs)"
 else
   echo "RESULT $NAME: NOT CONFIRMED (baseline_ok=$okb fail_with=$w pass_without=$wo)"
 fi
